@@ -303,12 +303,26 @@ func c13FwdCheck(c c13Fwd) vfResult {
 func c13GenFwd(t *rapid.T) c13Fwd {
 	if rapid.IntRange(0, 2).Draw(t, "k") == 0 {
 		lines, nl, final := c13GenNDJSON(t)
+		// one terminator for the whole file, or LF and CRLF mixed line by line; blank lines
+		// (empty, or only spaces and tabs) may separate the records
+		mixed := rapid.IntRange(0, 2).Draw(t, "mixednl") == 0
+		blanks := rapid.IntRange(0, 2).Draw(t, "blanks") == 0
+		term := func() string {
+			if mixed {
+				return rapid.SampledFrom([]string{"\n", "\r\n"}).Draw(t, "linenl")
+			}
+			return nl
+		}
 		var b []byte
 		second := -1
 		for i, l := range lines {
+			if blanks && i > 0 && rapid.IntRange(0, 2).Draw(t, "blankhere") == 0 {
+				b = append(b, rapid.SampledFrom([]string{"", " ", "\t", "  ", " \t "}).Draw(t, "blank")...)
+				b = append(b, term()...)
+			}
 			b = append(b, l...)
 			if i < len(lines)-1 || final {
-				b = append(b, nl...)
+				b = append(b, term()...)
 				if i == 1 {
 					second = len(b)
 				}
